@@ -420,6 +420,24 @@ fn flatten_rejects<T: FlattenMark>(v: &T) -> bool { v.rejects() }
 pub fn emit_shard_darling_only(recvs: &[Recv], ids: &[usize]) -> String {
     let full = emit_shard(recvs, ids);
     let mut out = String::new();
+    // The crate also shadows the prelude's container names and constructors (as a module with its own
+    // `Vec`, or `use Level::*` bringing a `None` into scope, would): generated code has to reach them
+    // through darling's re-exports. Everything the emitter itself writes is spelled with full paths.
+    const QUALIFY: [(&str, &str, bool); 12] = [
+        ("syn::", "::darling::export::syn::", false),
+        ("Option<", "::core::option::Option<", false),
+        ("Vec<", "::std::vec::Vec<", false),
+        ("String::from(", "::std::string::String::from(", false),
+        ("Box::new(", "::std::boxed::Box::new(", false),
+        ("Box<", "::std::boxed::Box<", false),
+        ("String", "::std::string::String", false),
+        ("Some(", "::core::option::Option::Some(", true),
+        ("None", "::core::option::Option::None", true),
+        ("Ok(", "::core::result::Result::Ok(", true),
+        ("Err(", "::core::result::Result::Err(", true),
+        ("Default::default()", "::core::default::Default::default()", false),
+    ];
+    let mut in_enum = false;
     for line in full.lines() {
         if line.starts_with("impl ::vf_support::Dump") {
             continue;
@@ -427,23 +445,47 @@ pub fn emit_shard_darling_only(recvs: &[Recv], ids: &[usize]) -> String {
         if line.starts_with("fn dispatch(") {
             break;
         }
+        if line.starts_with("pub enum ") {
+            in_enum = true;
+        } else if in_enum && line == "}" {
+            in_enum = false;
+        }
         let mut l = String::new();
-        // qualify every bare `syn::` path
         let b = line.as_bytes();
         let mut i = 0;
-        while i < line.len() {
-            if line[i..].starts_with("syn::") && (i == 0 || !(b[i - 1].is_ascii_alphanumeric() || b[i - 1] == b'_' || b[i - 1] == b':')) {
-                l.push_str("::darling::export::syn::");
-                i += 5;
-            } else {
-                let ch = line[i..].chars().next().unwrap();
-                l.push(ch);
-                i += ch.len_utf8();
+        let mut in_str = false;
+        'outer: while i < line.len() {
+            if b[i] == b'"' && (i == 0 || b[i - 1] != b'\\') {
+                in_str = !in_str;
             }
+            let boundary = i == 0 || !(b[i - 1].is_ascii_alphanumeric() || b[i - 1] == b'_' || b[i - 1] == b':');
+            // the name of a variant in an enum declaration stays what it is
+            let variant_name_position = in_enum && (line[..i].trim().is_empty() || line[..i].trim_end().ends_with(']'));
+            if boundary && !in_str && !variant_name_position {
+                for (needle, repl, is_constructor) in QUALIFY {
+                    // variant names in an enum declaration stay what they are
+                    if is_constructor && in_enum {
+                        continue;
+                    }
+                    if line[i..].starts_with(needle) {
+                        let end = i + needle.len();
+                        let ends_word = needle.ends_with(|c: char| !(c.is_alphanumeric() || c == '_')) || end >= line.len() || !(b[end].is_ascii_alphanumeric() || b[end] == b'_');
+                        if ends_word {
+                            l.push_str(repl);
+                            i = end;
+                            continue 'outer;
+                        }
+                    }
+                }
+            }
+            let ch = line[i..].chars().next().unwrap();
+            l.push(ch);
+            i += ch.len_utf8();
         }
         out.push_str(&l);
         out.push('\n');
     }
+    out.push_str("#[allow(non_camel_case_types)]\nmod hostile_prelude {\n    pub struct Vec;\n    pub struct Option;\n    pub struct Result;\n    pub struct String;\n    pub struct Box;\n    pub struct Some;\n    pub struct None;\n    pub struct Ok;\n    pub struct Err;\n}\nuse hostile_prelude::*;\n");
     out.push_str("fn main() {}\n");
     out
 }
